@@ -2,6 +2,11 @@
 #include "spqlios-fft.h"
 #include <cassert>
 #include <cmath>
+#ifdef TFHE_VERIF
+#include "../../tfhe_verif_hooks.h"
+#else
+#define TFHE_VERIF_EVENT(ev, obj, buf, a, b)
+#endif
 
 using namespace std;
 
@@ -33,9 +38,11 @@ FFT_Processor_Spqlios::FFT_Processor_Spqlios(const int32_t N) : _2N(2 * N), N(N)
         cosomegaxminus1[j] = cos(2 * M_PI * j / _2N) - 1.;
         sinomegaxminus1[j] = sin(2 * M_PI * j / _2N);
     }
+    TFHE_VERIF_EVENT("ProcCtor", this, real_inout_rev, 0, 0);
 }
 
 void FFT_Processor_Spqlios::execute_reverse_int(double *res, const int32_t *a) {
+    TFHE_VERIF_EVENT("FftBegin", this, real_inout_rev, 0, 0);
     //for (int32_t i=0; i<N; i++) real_inout_rev[i]=(double)a[i];
     {
         double *dst = real_inout_rev;
@@ -75,6 +82,7 @@ void FFT_Processor_Spqlios::execute_reverse_int(double *res, const int32_t *a) {
         : "%ymm0", "memory"
         );
     }
+    TFHE_VERIF_EVENT("FftEnd", this, real_inout_rev, 0, 0);
 }
 
 void FFT_Processor_Spqlios::execute_reverse_torus32(double *res, const Torus32 *a) {
@@ -88,6 +96,7 @@ void FFT_Processor_Spqlios::execute_reverse_torus32(double *res, const Torus32 *
 void FFT_Processor_Spqlios::execute_direct_torus32(Torus32 *res, const double *a) {
     //TODO: parallelization
     static const double _2sN = double(2) / double(N);
+    TFHE_VERIF_EVENT("FftBegin", this, real_inout_direct, 2, 0);
     //for (int32_t i=0; i<N; i++) real_inout_direct[i]=a[i]*_2sn;
     {
         double *dst = real_inout_direct;
@@ -112,9 +121,11 @@ void FFT_Processor_Spqlios::execute_direct_torus32(Torus32 *res, const double *a
     }
     fft(tables_direct, real_inout_direct);
     for (int32_t i = 0; i < N; i++) res[i] = Torus32(int64_t(real_inout_direct[i]));
+    TFHE_VERIF_EVENT("FftEnd", this, real_inout_direct, 2, 0);
 }
 
 FFT_Processor_Spqlios::~FFT_Processor_Spqlios() {
+    TFHE_VERIF_EVENT("ProcDtor", this, real_inout_rev, 0, 0);
     //delete (tables_direct);
     //delete (tables_reverse);
     delete[] cosomegaxminus1;
